@@ -54,6 +54,11 @@ func applyLog(log []entry, withDumps bool) (tr trace, crashed string) {
 			}()
 			res := r.ApplyBytes(e.Idx, e.bytes)
 			tr.Results = append(tr.Results, fsmkit.RenderResult(res, dump.Render))
+			// replicas B and C apply at their own pace: after a command that can end a session they wait
+			// longer than the shortest generated lock-delay, replica A never does
+			if e.Class == "session:destroy" {
+				time.Sleep(12 * time.Millisecond)
+			}
 		}()
 		if crashed != "" {
 			return
@@ -168,6 +173,9 @@ func TestZZVerifC01(t *testing.T) {
 		var prelude []gen.Cmd
 		if li%4 == 1 || li%4 == 2 {
 			prelude = gen.VIPPrelude()
+		}
+		if li%10 == 7 {
+			prelude = gen.LockDelayScenario()
 		}
 		for i := 0; i < ln; i++ {
 			idx += 1 + uint64(lr.Intn(2))
